@@ -990,6 +990,7 @@ type Registry struct {
 	ctorOf   map[string]*Datatype // constructor name -> datatype
 	selOf    map[string]selInfo   // selector name -> ctor / index
 	axioms   []*Axiom
+	noQuantAxioms bool // candidate-model mode of the replayer: leave quantified axioms out of scripts
 	strLits  map[string]*string // symbol -> literal text
 	strSyms  map[string]string  // text -> symbol
 	fresh    int
@@ -1224,6 +1225,23 @@ func (r *Registry) BuildScriptQ(asserts []*Term, queries []*Term) *Script {
 	return sc
 }
 
+// termHasQuant: does the term contain a quantifier?
+func termHasQuant(t *Term, seen map[int]bool) bool {
+	if t == nil || seen[t.id] {
+		return false
+	}
+	seen[t.id] = true
+	if t.K == KQuant {
+		return true
+	}
+	for _, a := range t.Args {
+		if termHasQuant(a, seen) {
+			return true
+		}
+	}
+	return false
+}
+
 func (r *Registry) BuildScript(asserts []*Term, logicOpts string) *Script {
 	return r.buildScript(asserts, logicOpts, nil)
 }
@@ -1258,6 +1276,10 @@ func (r *Registry) buildScript(asserts []*Term, logicOpts string, extra []*Term)
 					hit = true
 					break
 				}
+			}
+			if hit && r.noQuantAxioms && termHasQuant(ax.Body, map[int]bool{}) {
+				usedAx[ax.Name] = true // candidate-model mode: quantified axioms are left out
+				continue
 			}
 			if hit {
 				usedAx[ax.Name] = true
